@@ -147,14 +147,17 @@ func run(o *Options) int {
 		os.MkdirAll(solver.Dir, 0o755)
 	}
 	bad := 0
+	var tasks []vtask
 	for _, key := range keys {
-		fn := ctx.findFunc(key)
-		if fn == nil {
-			fmt.Printf("%s: function not found\n", key)
+		tasks = append(tasks, ctx.expandKey(key, sp.Funcs[key])...)
+	}
+	for _, t := range tasks {
+		if t.skip != "" {
+			fmt.Printf("%s: %s\n", t.key, t.skip)
 			bad++
 			continue
 		}
-		ex := VerifyFunc(ctx, fn, sp.Funcs[key], o.Safety, true)
+		ex := VerifyFuncAs(ctx, t.fn, t.fc, o.Safety, true, t.nameAs)
 		if o.Only != "" {
 			var keep []*Obligation
 			for _, ob := range ex.obls {
@@ -210,7 +213,7 @@ func groupObls(obls []*Obligation) []*group {
 
 func report(ex *Exec, verbose bool) int {
 	bad := 0
-	fmt.Printf("== %s: %d paths, %d returns, %d obligation instances\n", funcKey(ex.fn), ex.paths, ex.retCount, len(ex.obls))
+	fmt.Printf("== %s: %d paths, %d returns, %d obligation instances\n", ex.oblName(), ex.paths, ex.retCount, len(ex.obls))
 	for _, e := range ex.errs {
 		fmt.Println("   UNSUPPORTED/BINDING:", e)
 		bad++
